@@ -77,12 +77,12 @@ MANIFEST = {
             "'the specification has the shape FF*FF****' (disjointBB_sound_point, disjointBB_sound_spec; bounding_rect ignores holes but BE = F keeps hole coordinates in the shell's box), "
             "and for Polygon x Polygon through Rect/Triangle::to_polygon (polyPoly_shortcut_sound). (3) The mask 'not FF*FF****' on the specification is exactly 'the operands have a common "
             "point' for all operands with closed rings (isIntersects_iff_common_point(_dom)): point location is constant on elementary sub-segments of the arrangement "
-            "(locate_const_on_elementary), a face atom sits beside a point on or inside the polygon, a common point off the arrangement is walked to the first ring it meets. "
+            "(Geo.Proofs.C02X.locate_const), a face atom sits beside a point on or inside the polygon, a common point off the arrangement is walked to the first ring it meets. "
             "(4) Every kernel except Polygon x Polygon is a point-set statement: polyLine / rectLine / triangle-to_polygon-Line <=> the segment has a point in the area "
             "(polyLine_iff_point_set, rectLine_iff_point_set, triLine_iff_point_set: a segment missing every ring keeps its winding numbers), rectRect_iff_point_set. "
             "(5) Hence intersects(a, b) = mask on the specification for EVERY pair of the domain in which one operand has no areal member (Point, Line, LineString, MultiPoint, "
-            "MultiLineString, collections of these; the other operand arbitrary, nested collections included): intersectsM_thin_eq_spec, intersectsM_thin_iff_common, symmetric "
-            "(intersectsM_thin_symm) - 76 of the 100 type pairs, plus Rect x Rect (intersectsM_rect_rect_eq_spec); the nine Line/LineString/MultiLineString pairs for ALL inputs as "
+            "MultiLineString, collections of these; the other operand arbitrary, nested collections included): intersectsM_eq_spec_partial, intersectsM_iff_common_partial, symmetric "
+            "(intersectsM_symm_thin_partial) - 76 of the 100 type pairs, plus Rect x Rect (intersectsM_rect_rect_eq_spec); the nine Line/LineString/MultiLineString pairs for ALL inputs as "
             "'some segment pair shares a point' (intersectsM_linear_iff, intersectsM_linear_eq_spec). Open (correspondence only): the 15 pairs of areal types that run the "
             "Polygon x Polygon body (intersectsM_areal_dispatch); for them: what the body computes is characterised exactly (polyPoly_iff_boundary: a ring point of q in p or a shell "
             "point of p in q, bbox early returns included), true => the mask holds (intersectsM_areal_sound, no false positive), and equality modulo one named step "
